@@ -8,6 +8,8 @@ import (
 	"os"
 	"sort"
 	"strings"
+	"sync"
+	"sync/atomic"
 
 	lz4 "github.com/pierrec/lz4/v4"
 	"github.com/pierrec/lz4/v4/verifsched"
@@ -140,7 +142,13 @@ func runWriterPlan(p *writerPlan, conc int, o *Obs, yield bool) {
 	w := lz4.NewWriter(sinks[0])
 	opts := append([]lz4.Option{lz4.BlockSizeOption(lz4.Block64Kb), lz4.ConcurrencyOption(conc)}, p.Opts...)
 	if p.Handler {
-		opts = append(opts, lz4.OnBlockDoneOption(func(n int) { verifsched.Note("OnBlockDone"); handled = append(handled, fmt.Sprint(n)) }))
+		var hmu sync.Mutex // the callback is invoked from the library's goroutines: it must be safe for concurrent use
+		opts = append(opts, lz4.OnBlockDoneOption(func(n int) {
+			verifsched.Note("OnBlockDone")
+			hmu.Lock()
+			handled = append(handled, fmt.Sprint(n))
+			hmu.Unlock()
+		}))
 	}
 	if err := w.Apply(opts...); err != nil {
 		o.logf("Apply=%v", err)
@@ -320,9 +328,11 @@ func smallFrame(blockSum, contentSum bool, nblocks int, legacy bool) (frame, con
 func runReaderPlan(p *readerPlan, o *Obs) {
 	src := &schedSource{data: p.Frame, failAt: p.FailAt, chunk: p.Chunk, yield: p.FailAt > 0}
 	r := lz4.NewReader(src)
-	var handled int
-	o.AddState(func() uint64 { return uint64(src.pos)*1000003 + uint64(src.calls)*7 + uint64(handled) })
-	if err := r.Apply(lz4.ConcurrencyOption(p.Conc), lz4.OnBlockDoneOption(func(n int) { verifsched.Note("OnBlockDone"); handled += n })); err != nil {
+	var handled64 int64
+	o.AddState(func() uint64 {
+		return uint64(src.pos)*1000003 + uint64(src.calls)*7 + uint64(atomic.LoadInt64(&handled64))
+	})
+	if err := r.Apply(lz4.ConcurrencyOption(p.Conc), lz4.OnBlockDoneOption(func(n int) { verifsched.Note("OnBlockDone"); atomic.AddInt64(&handled64, int64(n)) })); err != nil {
 		o.logf("Apply=%v", err)
 	}
 	readAll := func() {
@@ -592,6 +602,33 @@ func c08Scenarios(thorough bool) []*Scenario {
 	return scs
 }
 
+// c08RacePass: the auxiliary free-running pass of the "no data races" clause. The same scenario
+// bodies run with real goroutines in a binary built with -race (GORACE=halt_on_error=1): a report
+// kills the worker with the race detector's exit code and the parent turns it into a violation.
+// This is sampling (the cooperative scheduler's hand-offs would hide races from the detector), so
+// it is reported separately in the evidence and never decides anything by its silence.
+func c08RacePass(c *ev.Ctx) {
+	runs := 40
+	if c.Thorough() {
+		runs = 300
+	}
+	var n int64
+	for i, sc := range c08Scenarios(false) {
+		if !c.Mine(int64(i)) {
+			continue
+		}
+		for r := 0; r < runs; r++ {
+			o := &Obs{}
+			func() {
+				defer func() { recover() }()
+				sc.Body(o)
+			}()
+			n++
+		}
+	}
+	c.Add("aux_race_runs", n)
+}
+
 func countSinkCalls(p *writerPlan) int {
 	s := &schedSink{}
 	w := lz4.NewWriter(s)
@@ -619,9 +656,13 @@ func init() {
 			"code between two visible operations (channel, mutex, spawn, sink/source call) runs atomically: unsynchronised memory races are visible only through their effect on some explored schedule (pool poison, wrong bytes); a free-running -race pass is auxiliary",
 			"interleavings beyond the completed preemption bound, more than 3 blocks, concurrency > 3 are not explored",
 		},
-		Alt:      []string{"sched"},
+		Alt:      []string{"sched", "race"},
 		ReplayIn: "sched",
 		Run: func(c *ev.Ctx) {
+			if Flavour == "race" {
+				c08RacePass(c)
+				return
+			}
 			if Flavour != "sched" {
 				return // the plain binary only orchestrates
 			}
